@@ -19,3 +19,17 @@ Theorem C01_instance : forall rs m p r v, wf_table rs ->
   dispatch (build rs) m p = Found r v -> subst (r_toks r) v = Some p.
 Proof. exact instance_sound. Qed.
 Print Assumptions C01_instance.
+
+(* ---- what the router makes of a registered pattern before its scan looks at it, from the statement-level translation of
+   normalizePathSlash (Gen/Src_normpath.v, re-translated from router.go on every run): the result always begins with '/', and
+   a pattern that already does is left as it is - the theorems above lose no registration by speaking of rooted patterns *)
+From Coq Require Import ZArith String Ascii.
+From Echo Require Import Base.Sx Base.GoLoop Gen.Src_normpath Router.NormPathSrc.
+Theorem C01_source_normalize_path : forall p : Sx.str,
+  snd (GoLoop.run nsym npred src_normalize_path_slash_results src_normalize_path_slash
+         {| GoLoop.locals := [("path"%string, VS p)]; GoLoop.fields := []; GoLoop.lists := []; GoLoop.events := []; GoLoop.inputs := [] |}) = [VS (normalized p)].
+Proof. exact NormPathSrc.C01_source_normalize_path. Qed.
+Print Assumptions C01_source_normalize_path.
+Theorem C01_source_normalized_rooted : forall p, (exists r, normalized p = "/"%char :: r) /\ (forall r, normalized ("/"%char :: r) = "/"%char :: r).
+Proof. intro p. split; [apply normalized_rooted | apply normalized_id]. Qed.
+Print Assumptions C01_source_normalized_rooted.
